@@ -41,6 +41,15 @@ def oracle(ctx, case, real, rt):
     fails = [f for f in rt.failures]
     ctx.count("dest_failures_reached", n=len(fails))
     ctx.count("dest_failures_on_reports", n=sum(1 for f in fails if f[3]))
+    # for every program, also with destinations added/removed while it runs and with re-delivery of buffered
+    # messages: a failing destination stays registered and reporting is synchronous, so it is itself offered one
+    # report for each of its failures on ordinary messages
+    for d in {f[0] for f in fails}:
+        n_fail = sum(1 for f in fails if f[0] == d and not f[3])
+        n_rep = sum(1 for dd, m in real["offered"] if dd == d and m.get("message_type") == "eliot:destination_failure")
+        if n_rep < n_fail:
+            ctx.violation("destination %d failed on %d ordinary messages but was offered only %d eliot:destination_failure reports" % (d, n_fail, n_rep), case)
+            return
     if not fixed_dests(case):
         return
     ds = case["prog"][0]["ds"]
